@@ -253,6 +253,9 @@ INT_TYPE(uint8_t, u8)
 INT_TYPE(uint16_t, u16)
 INT_TYPE(uint32_t, u32)
 INT_TYPE(uint64_t, u64)
+// long long / unsigned long long are distinct types from int64_t / uint64_t (= long / unsigned long on LP64)
+INT_TYPE(long long, ll)
+INT_TYPE(unsigned long long, ull)
 
 // float: everything incl. compound assignment
 CONV_COMMON(float, f32)
@@ -306,7 +309,7 @@ extern "C" const w_entry w_entries[] = {
   E(sin_angle_aprox) E(cos_angle_aprox) E(sqrt_aprox) E(hypot_aprox) E(atan_index_aprox) E(atan_aprox)
   E(sin_angle_tab) E(cos_angle_tab) E(tan_tab) E(square_root_tab)
   E(udl_int) E(udl_float) E(ostream)
-  E_INT(i8) E_INT(i16) E_INT(i32) E_INT(i64) E_INT(u8) E_INT(u16) E_INT(u32) E_INT(u64)
+  E_INT(i8) E_INT(i16) E_INT(i32) E_INT(i64) E_INT(u8) E_INT(u16) E_INT(u32) E_INT(u64) E_INT(ll) E_INT(ull)
   E_COMMON(f32) E(fp2f_f32) E(f2fp_f32) E_EQ(f32)
   E(ctor_f64) E(a2f_f64) E(mkf_f64) E(cast_f64) E(f2a_f64) E(fp2f_f64) E(f2fp_f64) E_MIXED(f64)
   E(sin_angle_fix) E(cos_angle_fix) E(tan_angle_fix) E(rt_f64) E(rt_f32)
